@@ -22,7 +22,7 @@ for state in ("head", "patched"):
     sh(["git", "-C", wt, "checkout", "-q", "--", "."])
     if state == "patched":
         r = sh(["git", "-C", wt, "apply", os.path.join(out, "patch.diff")]); assert r.returncode == 0, r.stderr
-    r = sh(cmd)
+    r = sh(cmd, cwd=out)
     if r.returncode != 0: print("demo compile failed", r.stderr[-2000:]); sys.exit(2)
     r = sh(["/tmp/seed_demo_%s" % sid], timeout=600)
     res[state] = (r.returncode, (r.stdout.strip().split("\n") or [""])[-1][:200])
